@@ -17,11 +17,21 @@ def env():
     """process-wide harness state: einx, registry snapshot, traced files (built once per worker)"""
     if _E:
         return _E
-    import einx
+    # every lock / event einx creates - also those created while it is imported (module-level locks, locks captured in closures of its
+    # decorators) - must be owned by the scheduler: the factories of the threading module are cooperative while einx is being imported
+    import threading as _t
+    if "einx" in sys.modules:
+        raise RuntimeError("harness error: einx was imported before the scheduler could take over its locks")
+    real = (_t.Lock, _t.RLock, _t.Event)
+    _t.Lock = sched.CoopLock; _t.RLock = sched.CoopLock; _t.Event = sched.CoopEvent
+    try:
+        import einx
+    finally:
+        _t.Lock, _t.RLock, _t.Event = real
     from einx._src.frontend import backend as B
     reg = B.registry
     root = os.path.dirname(einx.__file__)
-    files = tuple(os.path.join(root, p) for p in ["_src/frontend/backend.py", "_src/frontend/api.py", "_src/util/lru_cache.py", "_src/tracer/graph.py",
+    files = tuple(os.path.join(root, p) for p in ["_src/frontend/backend.py", "_src/frontend/api.py", "_src/util/lru_cache.py", "_src/tracer/graph.py", "_src/util/rwlock.py",
                                                    "_src/adapter/torch/devicestack.py", "_src/adapter/arrayapi/namespacestack.py"])
     x = np.arange(6).reshape(2, 3)
 
@@ -47,7 +57,8 @@ def env():
             for k, v in list(vars(mod).items()):
                 if isinstance(v, (type(threading.Lock()), type(threading.RLock()))):
                     locks.append((name, k))
-    _E.update(einx=einx, B=B, reg=reg, files=files, x=x, be=be, customs=customs, FakeTensor=FakeTensor, snap=reg.state, module_locks=locks,
+    sched.install_threading_shim()
+    _E.update(orig_lock=reg.use_lock, einx=einx, B=B, reg=reg, files=files, x=x, be=be, customs=customs, FakeTensor=FakeTensor, snap=reg.state, module_locks=locks,
               caches=find_caches(einx))
     return _E
 
@@ -131,12 +142,14 @@ PROGRAMS = {
     "register|lazy": ([[("register", "c1")], [("lazy_lookup",)]], False),
     "cold|cold_same": ([[("call_cold", "a b -> (b a)")], [("call_cold", "a b -> (b a)")]], True),
     "cold|cold_diff": ([[("call_cold", "a b -> (b a)")], [("run_cold", "a b -> b a 1")]], True),
+    "coldfail|coldfail_same": ([[("call_cold", "a b c -> c b a")], [("call_cold", "a b c -> c b a")]], True),      # first-time compilation that fails (RankError), twice
+    "coldfail|cold_same_op": ([[("call_cold", "a b c -> c b a")], [("call_cold", "a b -> (b a)")]], True),
     "3: with|call|get": ([[("enter", "E"), ("exit", "E")], [("call",)], [("get_by_name", "numpy.numpylike")]], False),
     "3: reg|reg|with": ([[("register", "c1")], [("register", "c2")], [("enter", "L"), ("exit", "L")]], False),
 }
 QUICK_BOUNDS = {"with|call": 1, "with|get_tensors": 2, "with|register+use": 2, "enterexit|enterexit": 2, "register|register": 2, "with|with_same": 1,
-                "cold|cold_same": 1, "cold|cold_diff": 1}
-THOROUGH_BOUNDS = {k: 2 for k in PROGRAMS} | {"cold|cold_same": 1, "cold|cold_diff": 1, "enterexit|enterexit": 3, "register|register": 3}
+                "cold|cold_same": 1, "cold|cold_diff": 1, "coldfail|coldfail_same": 1, "coldfail|cold_same_op": 1}
+THOROUGH_BOUNDS = {k: 2 for k in PROGRAMS} | {"cold|cold_same": 1, "cold|cold_diff": 1, "coldfail|coldfail_same": 2, "coldfail|cold_same_op": 1, "enterexit|enterexit": 3, "register|register": 3}
 
 
 def final_state():
@@ -148,7 +161,7 @@ def final_state():
 def serial_spec(name):
     threads, cold = PROGRAMS[name]
     E = env()
-    E["reg"].use_lock = sched.CoopLock(None)
+    E["reg"].use_lock = sched.cooperative(E["orig_lock"], None)
     allowed = set()
     idx = [i for i, t in enumerate(threads) for _ in t]
     for order in set(itertools.permutations(idx)):
@@ -197,8 +210,12 @@ def run_once(name, choices, expect):
             return out
         return f
     s = sched.Sched([body(t) for t in threads], choices, E["files"], expect)
-    E["reg"].use_lock = sched.CoopLock(s)
-    results = s.run()
+    E["reg"].use_lock = sched.cooperative(E["orig_lock"], s)
+    sched.CURRENT = s
+    try:
+        results = s.run()
+    finally:
+        sched.CURRENT = None
     if s.error is not None:
         raise s.error
     res = []
@@ -245,7 +262,7 @@ def run(ctx):
         for ch, ex in sched.children(trace, 0, bound):
             units.append((name, bound, ch, ex, sorted(allowed), False))
     reset(False)
-    E["reg"].use_lock = sched.CoopLock(None)
+    E["reg"].use_lock = sched.cooperative(E["orig_lock"], None)
     work_units = []
     per_prog = collections.Counter(); outcomes = collections.defaultdict(collections.Counter); maxpts = collections.Counter()
     for u in units:
@@ -293,7 +310,7 @@ def replay(d):
     allowed = serial_spec(name)
     trace, obs = run_once(name, d["choices"], None)
     trace2, obs2 = run_once(name, d["choices"], None)
-    env()["reg"].use_lock = sched.CoopLock(None)
+    env()["reg"].use_lock = sched.cooperative(env()["orig_lock"], None)
     reset(False)
     print("program", name, PROGRAMS[name][0]); print("observation:", obs); print("replayed again:", obs2 == obs); print("serial outcomes:", sorted(allowed))
     return obs not in allowed
